@@ -116,6 +116,35 @@ def conditional_attrs(repo, cname):
     return [(a, k, m, n) for (a, k), (m, n) in seen.items()]
 
 
+def _reads_block_values(repo, cname, atoms, depth=3):
+    """do the guard atoms (following calls to the class's own methods) read an accessor's value?"""
+    seen = set()
+
+    def expr_reads(e, d):
+        for n in ast.walk(e):
+            if isinstance(n, ast.Attribute) and n.attr in ("value", "raw_value"):
+                return True
+            if isinstance(n, ast.Subscript) and ast.unparse(n.value).endswith("accessors"):
+                return True
+            if isinstance(n, ast.Call) and isinstance(n.func, ast.Attribute) and isinstance(n.func.value, ast.Name) and n.func.value.id == "self" and d > 0:
+                m = repo.method(cname, n.func.attr, required=False)
+                if m is not None and m.qual not in seen:
+                    seen.add(m.qual)
+                    if expr_reads(m.node, d - 1):
+                        return True
+        return False
+
+    for a in atoms:
+        txt = a[4:] if a.startswith("not ") else a
+        try:
+            e = ast.parse(txt, mode="eval").body
+        except SyntaxError:
+            continue
+        if expr_reads(e, depth):
+            return True
+    return False
+
+
 def check(ctx):
     repo = Repo()
     T = tables(repo)
@@ -180,11 +209,27 @@ def check(ctx):
                         for n in g.stmt_nodes():
                             if isinstance(n.ast, ast.Assign) and ast.unparse(n.ast.targets[0]) == f"self.{attr}" and not (isinstance(n.ast.value, ast.Constant) and n.ast.value.value is None):
                                 keys = []
+                                other = []
+                                aliases = []  # unexpanded spellings of an item-presence test (guard_atoms lists both)
                                 for txt, p in g.guard_atoms(n):
                                     if p and " in " in txt and txt.endswith("accessors"):
                                         kv = fold_key(repo, m, ast.parse(txt.split(" in ")[0], mode="eval").body)
                                         if kv:
                                             keys.append(kv)
+                                        else:
+                                            aliases.append(txt)
+                                        continue
+                                    other.append(("" if p else "not ") + txt)
+                                if aliases and not keys:
+                                    other += aliases  # item-presence test on a key the analysis cannot resolve
+                                # the member is dereferenced for every status block: whether it is None may
+                                # depend on which items the tables have (joined below), never on block contents
+                                if other and not _reads_block_values(repo, fac, other):
+                                    ctx.error(f"{fac}.{prop}: guard [{'; '.join(other)}] of the optional list member {mem} is neither item presence nor a visible read of status-block values - idiom unsupported")
+                                    continue
+                                ctx.ob("R3", f"{fac}.{prop}::none-only-when-item-missing", not other,
+                                       f"{fac}.all_automation_devices contains {mem}, which stays None unless [{'; '.join(other)}] holds - a condition on status-block contents or one the analysis cannot resolve to item presence; the list is iterated with .watch/.key so such a block raises AttributeError",
+                                       f"{m.mod.path}:{n.lineno}")
                                 for kv in keys:
                                     must.setdefault(kv, (aad, aad.node.lineno, f"{fac}.all_automation_devices contains {mem} which stays None unless {kv!r} exists; the list is iterated with .watch/.key/.unwatch_all"))
                                     ctx.ob("R3", f"{fac}.{prop}::requires::{kv}", True, f"optional list member {mem} -> required key {kv}")
